@@ -44,7 +44,11 @@
 (***************************************************************************)
 EXTENDS Integers, FiniteSets, TLC
 
-CONSTANTS N, MaxView, H0, NH, InitSilentSets, NextSilentSets, MaxSilentChanges, Bug
+CONSTANTS N, MaxView, H0, NH, InitSilentSets, NextSilentSets, MaxSilentChanges,
+          WakeAllDone,   \* TRUE: the silent set changes only once every non-silent validator has finished all heights (a validator that
+                         \* was held back meets ALL the traffic of the heights it missed, in any order: the lag scenario without the
+                         \* interleavings of the others)
+          Bug
 
 F == (N - 1) \div 3
 M == N - F
@@ -140,20 +144,22 @@ Init ==
     /\ sc = 0
     /\ got = [v \in Val |-> {}]
 
-Step(v, s) ==
-    /\ st' = [st EXCEPT ![v] = [s EXCEPT !.out = {}]]
+\* got (ghost): the payloads handed to v that were not of a past height at that moment; entries of heights v has left are
+\* dropped (nothing refers to them), and a validator that finished all heights keeps nothing (canonical final state)
+Step(v, s, g) ==
+    /\ st' = [st EXCEPT ![v] = IF Done(s) THEN [Fresh(s.h, s.chain) EXCEPT !.wok = s.wok] ELSE [s EXCEPT !.out = {}]]
     /\ msgs' = msgs \cup s.out
+    /\ got' = [got EXCEPT ![v] = IF Done(s) THEN {} ELSE {m \in g : m.h >= s.h}]
     /\ UNCHANGED <<silent, sc>>
 
 Timeout(v) ==
     /\ v \notin silent /\ ~Done(st[v])
     /\ LET s == st[v] IN
        IF Prim(s) = v /\ ~HasReq(s)
-       THEN Step(v, Send([s EXCEPT !.prep = @ \cup {v}], Msg("PrepareRequest", v, s.h, s.view)))
+       THEN Step(v, Send([s EXCEPT !.prep = @ \cup {v}], Msg("PrepareRequest", v, s.h, s.view)), got[v])
        ELSE IF ~Committed(s, v) /\ s.view < MaxView
-       THEN Step(v, Handle(Send(s, Msg("ChangeView", v, s.h, s.view + 1)), v, Msg("ChangeView", v, s.h, s.view + 1)))   \* the own one counts
-       ELSE Step(v, s)
-    /\ UNCHANGED got
+       THEN Step(v, Handle(Send(s, Msg("ChangeView", v, s.h, s.view + 1)), v, Msg("ChangeView", v, s.h, s.view + 1)), got[v])   \* the own one counts
+       ELSE Step(v, s, got[v])
 
 \* a hand-over that cannot have an effect is not generated (relevance pruning)
 Relevant(m, v) ==
@@ -164,8 +170,7 @@ Relevant(m, v) ==
 
 Deliver(m, v) ==
     /\ v \notin silent /\ m \in msgs /\ m.from # v /\ Relevant(m, v)
-    /\ Step(v, Receive(st[v], v, m))
-    /\ got' = [got EXCEPT ![v] = IF m.h >= st[v].h THEN @ \cup {m} ELSE @]
+    /\ Step(v, Receive(st[v], v, m), IF m.h >= st[v].h THEN got[v] \cup {m} ELSE got[v])
 
 \* Block relay: the block of the height v works on reaches it through the chain (another validator has it).
 Relay(v, u) ==
@@ -175,11 +180,11 @@ Relay(v, u) ==
           /\ IF Bug = "AdvanceAny" THEN h >= st[v].h ELSE h = st[v].h
           /\ LET s == st[v]
                  jump == [s EXCEPT !.h = h]      \* AdvanceAny: the ledger gets block h only
-             IN  Step(v, NewHeight(jump, v, st[u].chain[h]))
-    /\ UNCHANGED got
+             IN  Step(v, NewHeight(jump, v, st[u].chain[h]), got[v])
 
 SetSilent(S) ==
     /\ S \in NextSilentSets /\ Cardinality(S) <= F /\ S # silent /\ sc < MaxSilentChanges
+    /\ WakeAllDone => \A u \in Val \ silent : Done(st[u])
     /\ silent' = S /\ sc' = sc + 1
     /\ UNCHANGED <<st, msgs, got>>
 
